@@ -706,7 +706,6 @@ type tracer struct {
 	evs                                   []string
 	tid                                   func() int
 	spin                                  bool // Map: the bucket lock is bit 0 of the word; MapOf uses a mutex
-	lastCtr                               map[int]bool
 	unlocking                             bool
 }
 
@@ -733,15 +732,8 @@ func (tr *tracer) note(kind string, addr unsafe.Pointer, arg uint64) {
 		if addr == tr.resizing {
 			tok = "LdResizing"
 		} else {
-			// a counter stripe: sumSize() reads them in a row; one token per sum
-			if tr.lastCtr == nil {
-				tr.lastCtr = map[int]bool{}
-			}
-			if !tr.lastCtr[tr.tid()] {
-				tr.lastCtr[tr.tid()] = true
-				tr.evs = append(tr.evs, fmt.Sprintf("ev %d SumSize", tr.tid()))
-			}
-			return
+			// a counter stripe: sumSize() reads them one atomic load at a time
+			tok = "LdCtr"
 		}
 	case "StoreInt64":
 		if addr == tr.resizing {
@@ -784,9 +776,6 @@ func (tr *tracer) note(kind string, addr unsafe.Pointer, arg uint64) {
 		tok = "CondPark"
 	case "Broadcast":
 		tok = "Broadcast"
-	}
-	if tr.lastCtr != nil {
-		tr.lastCtr[tr.tid()] = false
 	}
 	if tok != "" {
 		tr.evs = append(tr.evs, fmt.Sprintf("ev %d %s", tr.tid(), tok))
@@ -1373,6 +1362,10 @@ func schedReplay(a map[string]string) {
 	bf, _ := os.Create(outdir + "/monitors.txt")
 	hw, bw := bufio.NewWriter(hf), bufio.NewWriter(bf)
 	defer func() { hw.Flush(); bw.Flush(); hf.Close(); bf.Close() }()
+	wantTrace := argInt(a, "trace", 0) == 1
+	tf, _ := os.Create(outdir + "/trace.txt")
+	tw := bufio.NewWriter(tf)
+	defer func() { tw.Flush(); tf.Close() }()
 	sc := bufio.NewScanner(f)
 	sc.Buffer(make([]byte, 1<<20), 1<<24)
 	var p *program
@@ -1424,9 +1417,16 @@ func schedReplay(a map[string]string) {
 		case "end":
 			if p != nil && len(p.threads) > 0 {
 				forcedSchedule = order
-				o := explore(p, 0, 1, 20000, false, -1)
+				o := explore(p, 0, 1, 20000, wantTrace, -1)
 				id++
 				o.write(hw, id)
+				if wantTrace && o.protoTrace != nil && o.problem == "" {
+					fmt.Fprintf(tw, "trace %d %s\n", id, p.header())
+					for _, e := range o.protoTrace {
+						fmt.Fprintln(tw, e)
+					}
+					fmt.Fprintln(tw, "end")
+				}
 				for _, b := range o.monitors() {
 					fmt.Fprintf(bw, "%d %s\n", id, b)
 				}
